@@ -46,6 +46,14 @@ def run(ctx):
         vlib.report_case_failures(ctx, m, 'replay of TLC transitions on %s' % ','.join(backends))
         if m['executed'] == 0:
             raise vlib.Infra('no case executed')
+    # ---------------- (R2) call SEQUENCES through the API (the state is reached by the calls themselves)
+    rq = ctx.tlc_must_pass('fs', 'MemFSSeq', 'MC_MemFSSeq_pre_%s.cfg' % ('quick' if q else 'thorough'), workers=8, timeout=1800, name='MemFSSeq: every sequence of %d mutating calls' % (3 if q else 4))
+    shq, totq, takq = vlib.shard_lines(ctx, rq['out'], NPROC, marker='\\"k\\":\\"seq\\"')
+    mq = vlib.run_sharded(ctx, lambda p: ['fsseq', '--in', p, '--backends', 'disk,diskview,mem', '--tmp', dtmp], shq)
+    ctx.cov['replay'].append(dict(what='call sequences through the API (disk family)', model_sequences=totq, executed=mq['executed'], failures=mq['failures_by_key']))
+    ctx.cov['evaluations'] += mq['executed']
+    ctx.cov['distinct_nontrivial'] += mq['executed']
+    vlib.report_case_failures(ctx, mq, 'call sequences')
     ctx.cov['rule'] = ('cases = (reachable abstract tree, call, raw spelling) expanded by TLC, sampled by seed in the quick tier; '
                        'distinct by construction; each compares result, whole tree and the host directory fingerprint')
     tf = ctx.tmp('c02_trace.ndjson')
